@@ -173,7 +173,7 @@ package main
 //@   ensures removed-all {C17}: tmp == minus(old(tmp), elemsS(elems(logFiles), off(logFiles), len(logFiles)))
 
 //@ func (*AtlasClient).downloadClusterLogsForHost
-//@   props C17 C16
+//@   props C17 C16 C20
 //@   requires: c != nil && c.HTTPClient != nil
 //@   assigns tmp, effects, envOps, reqs, reqURL, stderrN
 //@   ensures no-leftover-on-error {C17}: implies(result1 != nil, tmp == old(tmp))
@@ -183,7 +183,7 @@ package main
 //@   ensures touched-environment: envOps > old(envOps)
 
 //@ func (*AtlasClient).getAtlasClusterInfo
-//@   props C16
+//@   props C16 C20
 //@   requires: c != nil && c.HTTPClient != nil
 //@   assigns effects, envOps, reqs, reqURL
 //@   ensures one-request {C16}: reqs == old(reqs) || reqs == seqPush(old(reqs), infoURL(c.BaseURL, projectID, clusterName))
